@@ -631,8 +631,11 @@ def sh_safe(ctx, include_make_recipe=False, rule_id='SH-SAFE'):
     def selected(e):
         # the quoting branch is not the branch where the search for bad
         # characters failed / the full match of safe ones succeeded ...
+        direct_leaf = False
         for f_, n_ in e.path:
-            if (not want) in leaf_pols(n_, f_):
+            ps = leaf_pols(n_, f_)
+            direct_leaf = direct_leaf or bool(ps)
+            if (not want) in ps:
                 return False
         # ... and every "needs no quotes" result of the string branch is
         return_sites = []
@@ -645,8 +648,11 @@ def sh_safe(ctx, include_make_recipe=False, rule_id='SH-SAFE'):
                             F.atoms(r.value, g, b), True) and not \
                         _under_type(F, r, g, 'shell_literal'):
                     return_sites.append((r, g))
-        return bool(return_sites) and all(
-            (not want) in leaf_pols(r, g) for r, g in return_sites)
+        tested = [(r, g) for r, g in return_sites if leaf_pols(r, g)]
+        if not direct_leaf and not tested:
+            # the test goes through a flag variable: control dependence
+            return has_call(e.control(), te.name)
+        return all((not want) in leaf_pols(r, g) for r, g in tested)
     ok = bool(reps) and all(selected(e) for e, _ in reps)
     ctx.ob(R, 'inner_quote_info|bad-char-test-selects-quoting', ok,
            te.call, 'the bad-character test does not select the quoting '
